@@ -2,6 +2,7 @@ package checks
 
 import (
 	"fmt"
+	"strings"
 	"testing"
 	"time"
 
@@ -12,6 +13,7 @@ import (
 
 	edsv1 "github.com/DataDog/extendeddaemonset/api/v1alpha1"
 	"verifharness/evid"
+	"verifharness/gen"
 	"verifharness/mon"
 	"verifharness/oracle"
 	"verifharness/sim"
@@ -317,6 +319,125 @@ func TestC05Exhaustive(t *testing.T) {
 	}
 	rec.Exhaustive(true)
 	rec.Extra("lattice_points_total", i)
+	if !failed {
+		rec.Done()
+	}
+}
+
+// TestC05RestartUnderPodFaults: promotion by elapsed time demands that no canary pod restarted within
+// noRestartsDuration - also when the canary replica set's own sync meets failing pod calls. Two canary nodes: the pod
+// of one is lost and its re-creation (or the deletion of a stale pod) is refused by the API at every sync, the pod of
+// the other restarts after the canary duration has elapsed. The replica set was synced after the restart, so the
+// controller knows; the new version must not become active before the restart is noRestartsDuration old.
+func TestC05RestartUnderPodFaults(t *testing.T) {
+	rec := evid.New("TestC05RestartUnderPodFaults", "C05", "complete product {3, 4 nodes} x {pod creations of the canary set refused: never, with a generic error, with AlreadyExists} x {restart 30s, 2m, 4m before the decisive reconciles} x {replica set or EDS reconciled first}: auto canary (duration 2m, noRestartsDuration 5m) on two nodes, one canary pod lost, duration elapsed, the other canary pod restarts, three rounds of canary-set sync and EDS reconcile; oracle: ground truth - status.activeReplicaSet does not become the canary set while the restart is younger than noRestartsDuration - and the promotion-rule monitor; non-trivial = pod creations fail; distinct by configuration")
+	failed := false
+	ff := &firstFail{t: t, failed: &failed}
+	for _, nodes := range []int{3, 4} {
+		for _, fk := range []sim.FaultKind{sim.FaultNone, sim.FaultReject, sim.FaultRejectTyped} {
+			for _, ago := range []time.Duration{30 * time.Second, 2 * time.Minute, 4 * time.Minute} {
+				for _, rsFirst := range []bool{true, false} {
+					desc := fmt.Sprintf("nodes=%d podCreateAnswer=%s restartAgo=%s replicaSetFirst=%v", nodes, fk, ago, rsFirst)
+					var viol []mon.V
+					w := &World{rec: rec, cfg: WorldCfg{Monitors: mon.Of("promotion-rule", "no-panic"), Property: "C05"}, H: mon.NewHistory(), RSSeen: map[string]bool{}, RolesSynced: map[string]bool{}, Facts: map[string]int{}, lastSyncAt: map[string]time.Time{}, Det: true}
+					w.OnViolation = func(vs []mon.V) { viol = append(viol, vs...) }
+					w.C = sim.New(sim.Options{})
+					for i := 0; i < nodes; i++ {
+						w.C.AddNode(fmt.Sprintf("n%d", i+1), map[string]string{"zone": "a", "tier": "a"}, nil)
+					}
+					off := false
+					st := edsv1.ExtendedDaemonSetSpecStrategy{}
+					st.RollingUpdate.MaxUnavailable = gen.ParseIntOrPercent("100%")
+					st.Canary = &edsv1.ExtendedDaemonSetSpecStrategyCanary{Replicas: gen.ParseIntOrPercent("2"), ValidationMode: edsv1.ExtendedDaemonSetSpecStrategyCanaryValidationModeAuto,
+						Duration: &metav1.Duration{Duration: 2 * time.Minute}, NoRestartsDuration: &metav1.Duration{Duration: 5 * time.Minute},
+						AutoPause: &edsv1.ExtendedDaemonSetSpecStrategyCanaryAutoPause{Enabled: &off}, AutoFail: &edsv1.ExtendedDaemonSetSpecStrategyCanaryAutoFail{Enabled: &off}}
+					w.C.Add(&edsv1.ExtendedDaemonSet{ObjectMeta: metav1.ObjectMeta{Namespace: "ns1", Name: "foo"}, Spec: edsv1.ExtendedDaemonSetSpec{Template: gen.LetterTemplate('A'), Strategy: st}})
+					k := sim.KeyOf("ns1", "foo")
+					w.EDS = append(w.EDS, k)
+					stop := func() bool { return len(viol) > 0 }
+					for i := 0; i < 15 && !stop(); i++ {
+						if e := w.C.EDS(k.Namespace, k.Name); e != nil && int(e.Status.Ready) == nodes {
+							break
+						}
+						w.fairRound("c05 deploy")
+					}
+					w.editTemplate(k, 'B')
+					crs := ""
+					var cpods []*corev1.Pod
+					for i := 0; i < 6 && !stop(); i++ {
+						w.fairRound("c05 canary starts")
+						if e := w.C.EDS(k.Namespace, k.Name); e.Status.Canary != nil {
+							crs = e.Status.Canary.ReplicaSet
+						}
+						cpods = nil
+						for _, p := range w.C.Pods() {
+							if crs != "" && p.Labels[oracle.LabelRSName] == crs && oracle.IsReady(p) {
+								cpods = append(cpods, p)
+							}
+						}
+						if len(cpods) == 2 {
+							break
+						}
+					}
+					if len(cpods) != 2 {
+						if !stop() {
+							ff.Fatalf("harness: the canary did not start on two nodes (%s)", desc)
+							return
+						}
+						settle(ff, rec, viol, map[string]interface{}{"config": desc, "trace": w.C.Trace}, len(w.C.Trace), desc)
+						continue
+					}
+					activeBefore := w.C.EDS(k.Namespace, k.Name).Status.ActiveReplicaSet
+					// one canary pod is lost; from now on the API refuses the canary set's pod creations
+					w.C.ForceRemovePod(cpods[0].Namespace, cpods[0].Name)
+					if fk != sim.FaultNone {
+						w.C.Faults = func(call *sim.Call) sim.FaultKind {
+							if call.Actor == sim.ActorERS && call.Kind == "Pod" && call.Verb == "create" {
+								return fk
+							}
+							return sim.FaultNone
+						}
+					}
+					// the canary duration elapses (time only: nobody reconciles meanwhile), then the other canary pod restarts
+					w.C.Advance(6*time.Minute - ago)
+					w.C.Restart(cpods[1].Namespace, cpods[1].Name, 0, "Error")
+					restartedAt := w.C.Now()
+					w.C.Advance(ago - 25*time.Second)
+					synced := false // the canary set has been synced since the restart: the controller had its chance to record it
+					edsStep := func() {
+						before := w.C.EDS(k.Namespace, k.Name).Status.ActiveReplicaSet
+						w.reconcile(sim.ActorEDS, k.Namespace, k.Name)
+						if e := w.C.EDS(k.Namespace, k.Name); !stop() && synced && before != crs && e.Status.ActiveReplicaSet == crs && w.C.Now().Sub(restartedAt) < 5*time.Minute {
+							viol = append(viol, mon.V{Property: "C05", Monitor: "promotion-rule", Sig: "C05/promotion-rule/promoted-although/restart-inside-noRestartsDuration", Detail: fmt.Sprintf("the canary set %s became active (was %s) %s after a canary pod restarted, noRestartsDuration is 5m; the set had been synced since the restart (%s)", crs, activeBefore, w.C.Now().Sub(restartedAt), desc)})
+						}
+					}
+					for i := 0; i < 3 && !stop(); i++ {
+						w.C.Advance(11 * time.Second)
+						if !rsFirst {
+							edsStep()
+						}
+						if w.C.EDS(k.Namespace, k.Name).Status.ActiveReplicaSet == crs {
+							break // promoted before the replica-set controller could know about the restart: nothing to demand
+						}
+						w.reconcile(sim.ActorERS, k.Namespace, crs)
+						synced = true
+						if rsFirst {
+							edsStep()
+						}
+					}
+					w.C.Faults = nil
+					nt := fk != sim.FaultNone
+					rec.Case(nt, evid.FP(desc), fmt.Sprintf("pod-create-answer=%s", fk))
+					rec.Steps(1)
+					if nt && rec.WantSample() {
+						rec.Sample(desc)
+					}
+					settle(ff, rec, viol, map[string]interface{}{"config": desc, "trace": w.C.Trace}, len(w.C.Trace), "config: "+desc+"\n--- trace ---\n"+strings.Join(w.C.Trace, "\n"))
+				}
+			}
+		}
+	}
+	rec.Exhaustive(true)
 	if !failed {
 		rec.Done()
 	}
